@@ -309,3 +309,226 @@ def sph_tower(nu, order):
     res = [series(k) for k in range(order + 1)]
     _towers[key] = res
     return res
+
+
+# ------------------------------------------------------------------------------------------------------
+# programs (coq/ND/Hand/Prog.v): reference evaluation with a first-order running rounding-error bound
+#
+# A value is a pair (val, err): val the exact jet of the real program, err[S] a bound on |computed part - val[S]| to first order.
+# Errors are propagated with the SAME jet algebra on absolute values, over the family extended by one extra label EPS:
+# the part of the extended jet at S+EPS is err[S]; Leibniz / Faa di Bruno terms linear in EPS are exactly the first-order
+# propagation |d out[S] / d in[B]| err_in[B].  Each operation adds its local error  c u Sum|terms|.
+
+EPS = ('~eps', 0)
+UNOPS = ['neg', 'recip', 'sqrt', 'cbrt', 'exp', 'exp2', 'exp_m1', 'ln', 'log2', 'log10', 'ln_1p', 'sin', 'cos', 'tan', 'asin', 'acos', 'atan',
+         'sinh', 'cosh', 'tanh', 'asinh', 'acosh', 'atanh']
+BINOPS = ['add', 'sub', 'mul', 'div']
+
+
+class DomainError(Exception):
+    pass
+
+
+def in_domain(name, x, margin=True):
+    """is the real number x inside the domain of the elementary function (with a safety margin away from the boundary)"""
+    m = 0.02 if margin else 0.0
+    ax = abs(x)
+    if ax > 1e4:
+        return False
+    if name in ('recip', 'cbrt'):
+        return ax > m
+    if name in ('sqrt', 'ln', 'log2', 'log10'):
+        return x > m
+    if name == 'ln_1p':
+        return x > -1 + m
+    if name == 'tan':
+        return abs(mpmath.cos(x)) > 0.05 and ax < 20
+    if name in ('asin', 'acos', 'atanh'):
+        return ax < 1 - 2.5 * m
+    if name == 'acosh':
+        return x > 1 + 2.5 * m
+    if name in ('exp', 'exp2', 'exp_m1', 'sinh', 'cosh'):
+        return ax < 12
+    if name in ('sin', 'cos'):
+        return ax < 50
+    return True
+
+
+class EJ:
+    def __init__(self, val, err):
+        self.val, self.err = val, err
+
+    @property
+    def fam(self):
+        return self.val.fam
+
+    def ext(self):
+        """the extended absolute-value jet"""
+        parts = {}
+        for S in self.fam:
+            parts[S] = abs(self.val[S])
+            parts[S + (EPS,)] = self.err[S]
+        fam2 = list(self.fam) + [S + (EPS,) for S in self.fam]
+        return Jet(parts, fam2, self.val.zero * 0)
+
+
+def ej_exact(J):
+    return EJ(J, {S: J.zero * 0 for S in J.fam})
+
+
+def _lin(a, b, sign, u):
+    val = a.val + b.val if sign > 0 else a.val - b.val
+    err = {S: a.err[S] + b.err[S] + u * (abs(a.val[S]) + abs(b.val[S])) for S in val.fam}
+    return EJ(val, err)
+
+
+def _mul(a, b, u, c):
+    val = a.val * b.val
+    loc = a.val.mul_abs(b.val)
+    prop = a.ext() * b.ext()
+    err = {S: prop[S + (EPS,)] + c * u * loc[S] for S in val.fam}
+    return EJ(val, err)
+
+
+def _compose(a, derivs, u, c):
+    val = a.val.compose(derivs)
+    loc = a.val.compose_abs(derivs)
+    prop = a.ext().compose([abs(d) for d in derivs])
+    err = {S: prop[S + (EPS,)] + c * u * loc[S] for S in val.fam}
+    return EJ(val, err)
+
+
+def powi_derivs(x, n, order):
+    d, coef = [], 1
+    for k in range(order + 1):
+        d.append(coef * (x ** (n - k)) if (n - k >= 0 or x != 0) else x * 0)
+        coef *= (n - k)
+        if coef == 0:
+            d += [x * 0] * (order - k)
+            break
+    return d[:order + 1]
+
+
+def ej_unary(name, a, u, c=64):
+    if name == 'neg':
+        return EJ(-a.val, dict(a.err))
+    if not in_domain(name, a.val.re):
+        raise DomainError(name)
+    n = a.val.order()
+    tw = tower(name, n + 2)
+    d = [f(a.val.re) for f in tw]
+    return _compose(a, d, u, c)
+
+
+def ej_const(fam, cst, zero):
+    return EJ(Jet({S: (cst if not S else zero) for S in fam}, fam, zero), {S: zero for S in fam})
+
+
+def ej_binary(name, a, b, u, c=64):
+    if name == 'add':
+        return _lin(a, b, 1, u)
+    if name == 'sub':
+        return _lin(a, b, -1, u)
+    if name == 'mul':
+        return _mul(a, b, u, c)
+    if not in_domain('recip', b.val.re):
+        raise DomainError('div')
+    x = b.val.re
+    n = b.val.order()
+    d, f = [], 1 / x
+    for k in range(n + 3):
+        d.append(f)
+        f = f * (-(k + 1)) / x
+    return _mul(a, _compose(b, d, u, c), u, c)
+
+
+def ej_powi(a, n, u, c=64):
+    x = a.val.re
+    if (n < 0 or n > 2) and not in_domain('recip', x):
+        raise DomainError('powi')
+    if abs(n) * abs(mpmath.log(mpf(float(abs(x))) + mpf(10) ** -30)) > 25:
+        raise DomainError('powi-range')
+    d = powi_derivs(x, n, a.val.order() + 2)
+    return _compose(a, d, u, c)
+
+
+def prog_eval(code, env, u, conv_const, c=64, on_value=None):
+    """evaluate a program (prefix list of integers, as in Hand/Prog.v) over EJ values; raises DomainError"""
+    pos = [0]
+    env = list(env)
+
+    def go():
+        tag = code[pos[0]]
+        pos[0] += 1
+        if tag == 0:
+            i = code[pos[0]]; pos[0] += 1
+            return env[i]
+        if tag == 1:
+            cst = code[pos[0]]; pos[0] += 1
+            e0 = env[0]
+            return ej_const(e0.fam, conv_const(cst), e0.val.zero * 0)
+        if tag == 2:
+            un = code[pos[0]]; pos[0] += 1
+            a = go()
+            r = ej_unary(UNOPS[min(un, 22)], a, u, c)
+        elif tag == 3:
+            b = code[pos[0]]; pos[0] += 1
+            a = go(); d = go()
+            r = ej_binary(BINOPS[min(b, 3)], a, d, u, c)
+        elif tag == 4:
+            b = code[pos[0]]; cst = code[pos[0] + 1]; pos[0] += 2
+            a = go()
+            r = ej_binary(BINOPS[min(b, 3)], a, ej_const(a.fam, conv_const(cst), a.val.zero * 0), u, c)
+        elif tag == 5:
+            n = code[pos[0]]; pos[0] += 1
+            a = go()
+            r = ej_powi(a, n, u, c)
+        elif tag == 6:
+            a = go()
+            env.append(a)
+            r = go()
+            env.pop()
+        else:
+            raise ValueError('bad program tag %r' % tag)
+        if on_value is not None:
+            on_value(r)
+        if abs(r.val.re) > 1e6:
+            raise DomainError('magnitude')
+        return r
+    return go()
+
+
+def prog_str(code, nvars=0):
+    """readable rendering of a program"""
+    pos = [0]
+    depth = [0]
+
+    def go(nv):
+        tag = code[pos[0]]; pos[0] += 1
+        if tag == 0:
+            i = code[pos[0]]; pos[0] += 1
+            return 'x%d' % i
+        if tag == 1:
+            cst = code[pos[0]]; pos[0] += 1
+            return str(cst)
+        if tag == 2:
+            un = code[pos[0]]; pos[0] += 1
+            a = go(nv)
+            return ('-%s' % a) if un == 0 else '%s(%s)' % (UNOPS[min(un, 22)], a)
+        if tag == 3:
+            b = code[pos[0]]; pos[0] += 1
+            a = go(nv); d = go(nv)
+            return '(%s %s %s)' % (a, '+-*/'[min(b, 3)], d)
+        if tag == 4:
+            b = code[pos[0]]; cst = code[pos[0] + 1]; pos[0] += 2
+            a = go(nv)
+            return '(%s %s %s_F)' % (a, '+-*/'[min(b, 3)], cst)
+        if tag == 5:
+            n = code[pos[0]]; pos[0] += 1
+            return 'powi(%s, %d)' % (go(nv), n)
+        if tag == 6:
+            a = go(nv)
+            body = go(nv + 1)
+            return 'let x%d = %s in %s' % (nv, a, body)
+        raise ValueError(tag)
+    return go(nvars)
